@@ -22,6 +22,8 @@ structure SpecW where
   targeted : List Nat := []
   /-- ghost for C17: archetype generations observed so far with the archetype sets they stood for -/
   gens : List (Nat × String) := []
+  /-- ghost for C18: the tracked component's value per entity at the previous `track` -/
+  tprev : List (Entity × Nat) := []
   deriving Repr, Inhabited
 
 namespace SpecW
@@ -54,8 +56,11 @@ end SpecW
 def overrideComps (old b : List Comp) : List Comp :=
   canon (b ++ old.filter (fun c => !(b.map (·.1)).contains c.1))
 
-/-- multiset equality of component lists -/
+/-- multiset equality of component lists, over the component types that are instrumented with a drop
+ledger (types 0–9 of the harness universe; the tracked value type 10 of C18 has no destructor) -/
 def sameComps (a b : List Comp) : Bool :=
+  let a := a.filter (fun c => c.1 < 10)
+  let b := b.filter (fun c => c.1 < 10)
   let lt (x y : Comp) : Bool := x.1 < y.1 || (x.1 == y.1 && x.2 < y.2)
   let ins (x : Comp) (l : List Comp) : List Comp :=
     (l.takeWhile (fun y => lt y x)) ++ x :: (l.dropWhile (fun y => lt y x))
@@ -188,7 +193,7 @@ def apply (s : SpecW) (op : Op) (res : Res) (dropped : List Comp) : Except Strin
   | .clear => do
     check (res == .ok) "clear"
     check (sameComps dropped (s.live.flatMap (·.2))) "clear must drop every stored component"
-    pure { gens := s.gens }
+    pure { gens := s.gens, tprev := [] }
   | .flush => do
     check (res == .ok && dropped == []) "flush"
     pure s.flush
